@@ -120,6 +120,15 @@ structure Deps where
   /-- `update_statistics_*`: new (min, max) after seeing one more value -/
   statsStep : PType → Option (Val × Val) → Val → Option (Val × Val)
 
+/-- ghost record of one finished data page (not in the C structs): what
+`carquet_page_writer_finalize` computed for it -/
+structure PageRec where
+  rows : Nat                    -- num_values of the header
+  body : Bytes                  -- uncompressed page body
+  comp : Bytes                  -- stored (compressed) page body
+  stats : Option PageStats
+  deriving Repr
+
 /-- page builder (`carquet_page_writer_t`) -/
 structure Page where
   values : List Val := []       -- values of the page so far (dense), in order
@@ -137,9 +146,9 @@ structure ColW where
   totalValues : Nat := 0
   totalUncompressed : Nat := 0
   numPages : Nat := 0
-  /-- ghost (not in the C struct): the finished pages, (rows, header ++ compressed body) each;
-  `buffer` is their concatenation (proved in Proofs/WriterPages) -/
-  pages : List (Nat × Bytes) := []
+  /-- ghost (not in the C struct): the finished pages; `buffer` is the concatenation of
+  their bytes (proved in Proofs/WriterPages) -/
+  pages : List PageRec := []
   deriving Repr
 
 structure W where
@@ -198,16 +207,28 @@ def pageBody (D : Deps) (c : Col) (p : Page) : Bytes :=
   (if p.defs.length > 0 then D.levels c.maxDef p.defs else []) ++
   (if c.ptype = .boolean then D.plainBools p.values else D.plain c.ptype c.typeLen p.values)
 
+/-- statistics `carquet_page_writer_finalize` puts into the header -/
+def pageStatsOf (p : Page) : Option PageStats :=
+  match p.minMax with
+  | some (mn, mx) => some ⟨p.numNulls, mx, mn⟩
+  | none => none
+
+/-- header ++ stored body of a finished page -/
+def PageRec.bytes (D : Deps) (r : PageRec) : Bytes :=
+  D.pageHeader r.body.length r.comp.length (D.crc32 r.comp) r.rows r.stats ++ r.comp
+
 /-- `carquet_page_writer_finalize`: header ++ compressed body, and the uncompressed size -/
 def finalizePage (D : Deps) (codec : Nat) (c : Col) (p : Page) : Option (Bytes × Nat) :=
   match D.compress codec (pageBody D c p) with
   | none => none
   | some comp =>
-    some (D.pageHeader (pageBody D c p).length comp.length (D.crc32 comp) p.numValues
-            (match p.minMax with
-             | some (mn, mx) => some ⟨p.numNulls, mx, mn⟩
-             | none => none) ++ comp,
+    some (D.pageHeader (pageBody D c p).length comp.length (D.crc32 comp) p.numValues (pageStatsOf p) ++ comp,
           (pageBody D c p).length)
+
+/-- ghost: the record of the page `finalizePage` emits -/
+def pageRecOf (D : Deps) (codec : Nat) (c : Col) (p : Page) : PageRec :=
+  { rows := p.numValues, body := pageBody D c p,
+    comp := (D.compress codec (pageBody D c p)).getD [], stats := pageStatsOf p }
 
 /-- `flush_current_page` -/
 def flushPage (D : Deps) (codec : Nat) (c : Col) (cw : ColW) : Option ColW :=
@@ -217,7 +238,7 @@ def flushPage (D : Deps) (codec : Nat) (c : Col) (cw : ColW) : Option ColW :=
     | some (bytes, unc) =>
       some { cw with page := {}, buffer := cw.buffer ++ bytes,
                      totalUncompressed := cw.totalUncompressed + unc, numPages := cw.numPages + 1,
-                     pages := cw.pages ++ [(cw.page.numValues, bytes)] }
+                     pages := cw.pages ++ [pageRecOf D codec c cw.page] }
 
 /-- `carquet_column_writer_write_batch` -/
 def colWriteBatch (D : Deps) (codec target : Nat) (c : Col) (cw : ColW) (b : Batch) : Option ColW :=
